@@ -133,7 +133,81 @@ fn bystander(kind: &str) -> Result<String, String> {
     }
 }
 
+/// A peer that answers with a cycle of PERMANENT redirects (301 / 308): every call into the cycle ends with the
+/// too-many-redirections error — the first one and every later one through the same session or the same prepared
+/// request (seed C05-seed13: remembered permanent redirects are resolved with an unbounded loop; the second call
+/// spins without any I/O, so no timeout can end it).
+fn permanent_redirect_cycle(sink: &mut Sink) {
+    let l = TcpListener::bind("127.0.0.1:0").unwrap();
+    let port = l.local_addr().unwrap().port();
+    std::thread::spawn(move || {
+        for mut s in l.incoming().flatten() {
+            std::thread::spawn(move || {
+                s.set_read_timeout(Some(Duration::from_millis(500))).ok();
+                let mut seen = vec![];
+                let mut buf = [0u8; 2048];
+                while !seen.windows(4).any(|w| w == b"\r\n\r\n") {
+                    match s.read(&mut buf) {
+                        Ok(0) | Err(_) => break,
+                        Ok(n) => seen.extend_from_slice(&buf[..n]),
+                    }
+                }
+                let reply = if seen.starts_with(b"GET /a") {
+                    format!("HTTP/1.1 301 Moved Permanently\r\nLocation: http://127.0.0.1:{}/b\r\nContent-Length: 0\r\n\r\n", port)
+                } else if seen.starts_with(b"GET /b") {
+                    format!("HTTP/1.1 308 Permanent Redirect\r\nLocation: /c\r\nContent-Length: 0\r\n\r\n")
+                } else {
+                    format!("HTTP/1.1 301 Moved Permanently\r\nLocation: http://127.0.0.1:{}/a\r\nContent-Length: 0\r\n\r\n", port)
+                };
+                let _ = s.write_all(reply.as_bytes());
+            });
+        }
+    });
+    for how in ["session", "prepared-request"] {
+        let (tx, rx) = mpsc::channel();
+        std::thread::spawn(move || {
+            let url = format!("http://127.0.0.1:{}/a", port);
+            let show = |r: Result<attohttpc::Response, attohttpc::Error>| match r {
+                Ok(r) => format!("ok:{}", r.status().as_u16()),
+                Err(e) => format!("{:?}", e.kind()).chars().take(40).collect::<String>(),
+            };
+            let mut outcomes = vec![];
+            if how == "session" {
+                let mut sess = attohttpc::Session::new();
+                sess.read_timeout(Duration::from_millis(1000));
+                for _ in 0..3 {
+                    outcomes.push(show(sess.get(&url).send()));
+                    let _ = tx.send(outcomes.clone());
+                }
+            } else {
+                let mut p = attohttpc::get(&url).read_timeout(Duration::from_millis(1000)).prepare();
+                for _ in 0..3 {
+                    outcomes.push(show(p.send()));
+                    let _ = tx.send(outcomes.clone());
+                }
+            }
+        });
+        let mut last: Vec<String> = vec![];
+        let end = Instant::now() + Duration::from_millis(4000);
+        while last.len() < 3 {
+            match rx.recv_timeout(end.saturating_duration_since(Instant::now())) {
+                Ok(v) => last = v,
+                Err(_) => break,
+            }
+        }
+        let o = if last.len() < 3 {
+            Err((format!("hung-in-redirect-cycle-{}", how), format!("call #{} into a cycle of permanent redirects (through the same {}) had not returned after 4 s; the earlier calls ended {:?}", last.len() + 1, how, last)))
+        } else if last.iter().any(|o| !o.contains("TooManyRedirections")) {
+            Err((format!("redirect-cycle-outcome-{}", how), format!("{:?}", last)))
+        } else {
+            Ok(())
+        };
+        sink.push(Case { tags: vec!["kind=redirect-cycle".into(), format!("through={}", how)], op: format!("nop redirect-cycle {}", how), impl_line: "nop".into(), oracle: o });
+    }
+}
+
 pub fn generate(sink: &mut Sink) {
+    permanent_redirect_cycle(sink);
     let hs: Vec<_> = [Hold::TlsHandshakeSilent, Hold::TunnelTlsHandshakeSilent, Hold::HeadSilent, Hold::BodyDrip].into_iter().map(|h| std::thread::spawn(move || one(h))).collect();
     for h in hs {
         for c in h.join().unwrap() {
